@@ -89,7 +89,7 @@ def gen_apply_op(rng, n_jobs, with_failures=True):
     op = {'op': 'apply_batch', 'tasks': [{'idx': i, 'gap': rng.choice([0, 0, 0.01])} for i in range(k)]}
     durs = {}
     if with_failures and rng.random() < .6:
-        op['fail'] = {'at': sorted(rng.sample(range(k), rng.randint(0, min(3, k)))), 'exc': rng.choice(['ValueError', 'Custom', 'KeyError', 'Wrap', 'Prefix', 'TypeError'])}
+        op['fail'] = {'at': sorted(rng.sample(range(k), rng.randint(0, min(3, k)))), 'exc': rng.choice(['ValueError', 'Custom', 'KeyError', 'Wrap', 'Prefix', 'TypeError', 'SystemExit', 'KeyboardInterrupt'])}
     if with_failures and rng.random() < .5:
         op['task_timeout'] = 0.2
         for i in rng.sample(range(k), rng.randint(0, min(3, k))):
